@@ -14,8 +14,9 @@ PARALLEL = True
 BATCH = 1200
 BUDGET_S = {'quick': 70, 'thorough': 900}
 RULE = ('JSON: dictionaries with int (incl. negative, zero) and non-integer-like str top-level keys, nested '
-        'values {None, bool, int, float, str, list, nested dict, NumPy scalars, ndarrays of every numeric dtype '
-        'incl. bool/float16/complex/big-endian, rank 0..3, empty, C / Fortran / transposed / strided / reversed / '
+        'values {None, bool, int, float, str, list, nested dict, NumPy scalars (incl. long double and complex ones, which '
+        'have no JSON number form), ndarrays of every numeric dtype incl. bool/float16/complex/big-endian/long double/'
+        'complex long double, rank 0..3, empty, C / Fortran / transposed / strided / reversed / '
         'offset views (sent to the model with their real strides and offset), 1-D of 9/10/11 items, NaN inside '
         'arrays}; str values, nested keys and top-level keys over EVERY class of Python str code point (ASCII controls '
         'incl. NUL/DEL, quote and backslash, Latin-1, BMP incl. U+2028 / noncharacters, astral, and LONE SURROGATES - '
@@ -45,7 +46,9 @@ ASSUMPTIONS = ['json / base64 / repr of floats are transport: exercised through 
                'LC_ALL=C raise UnicodeEncodeError on a non-ASCII cell): the locale is varied for the JSON layer only, '
                'whose file text is pure ASCII whatever the strings']
 DTYPES = ['bool', 'int8', 'uint8', 'int16', 'int32', 'int64', 'uint64', 'float16', 'float32', 'float64',
-          'complex64', 'complex128', '>f4', '>i2', '<u4']
+          'complex64', 'complex128', '>f4', '>i2', '<u4', 'longdouble', 'clongdouble']
+# NumPy scalar types without a JSON number form: .item() is a Python complex, or the NumPy scalar itself (long double)
+EXOTIC_SCALARS = ['longdouble', 'clongdouble', 'complex64', 'complex128']
 
 
 # ---- strings ---------------------------------------------------------------------------------
@@ -118,11 +121,14 @@ def build(v):
     if t == 'float':
         return float(v['f'])
     if t == 'np':
+        if v['dt'] in EXOTIC_SCALARS:
+            x = getattr(np, v['dt'])(v['v'])
+            return x / 3 if v.get('third') else x       # a third: not representable as a double (long double keeps more bits)
         return getattr(np, v['dt'])(v['v'])
     if t == 'arr':
         n = int(np.prod(v['shape'])) if v['shape'] else 1
         base = (np.arange(n) % 7 - 3)
-        a = base.astype(v['dtype']) if not v['dtype'].startswith('complex') else (base + 1j * (base + 1)).astype(v['dtype'])
+        a = base.astype(v['dtype']) if np.dtype(v['dtype']).kind != 'c' else (base + 1j * (base + 1)).astype(v['dtype'])
         if v.get('nan') and a.dtype.kind in 'fc' and n:
             a[0] = np.nan
         a = a.reshape(v['shape'])
@@ -173,6 +179,11 @@ def to_lean(v, mem):
     t = v['t']
     if t == 'float':
         return dict(t='float', v=abs(hash(repr(v['f']))) % 100000)
+    if t == 'np' and v['dt'] in EXOTIC_SCALARS:
+        x = build(v)
+        k = len(mem)
+        mem.append([_r(x)])
+        return dict(t='npx', dtype=str(x.dtype), v=(k + 1) * 1000000)
     if t == 'np':
         if v['dt'].startswith(('float',)):
             return dict(t='float', v=abs(hash(repr(float(v['v'])))) % 100000)
@@ -263,6 +274,9 @@ def same(a, b):
         return isinstance(b, np.ndarray) and b.dtype == a.dtype and b.shape == a.shape and \
             np.array_equal(a, b, equal_nan=a.dtype.kind in 'fc')
     if isinstance(a, np.generic):
+        if isinstance(a.item(), (np.generic, complex)):
+            # no JSON number holds it: preserved = the same dtype and value (a 0-d array or a NumPy scalar)
+            return isinstance(b, (np.ndarray, np.generic)) and b.shape == () and b.dtype == a.dtype and bool(b == a)
         return same(a.item(), b)
     if isinstance(a, float):
         return isinstance(b, float) and (a == b or (math.isnan(a) and math.isnan(b)))
@@ -715,6 +729,10 @@ def tally(rep, case, impl_res, ans):
 
             def walk(x):
                 rep.count(pre + 'value:' + x['t'])
+                if x['t'] == 'np':
+                    rep.count(pre + 'np_scalar:' + x['dt'])
+                if x['t'] == 'arr' and x['dtype'] in ('longdouble', 'clongdouble'):
+                    rep.count(pre + 'arr_dtype:' + x['dtype'])
                 if x['t'] == 'arr':
                     rep.count(pre + 'arr_rank:%d' % len(x['shape']))
                     rep.count(pre + 'arr_layout:' + x.get('layout', 'C'))
@@ -818,7 +836,9 @@ def rand_value(rng, depth=0):
     if t == 'str':
         return dict(t='str', v=rng.pick(TEXTS + ['', '12', '__ndarray_']) if rng.random() < .5 else rand_ustr(rng))
     if t == 'np':
-        dt = rng.pick(['int32', 'int64', 'uint8', 'float32', 'float64', 'int16'])
+        dt = rng.pick(['int32', 'int64', 'uint8', 'float32', 'float64', 'int16', 'float16', 'uint64'] + EXOTIC_SCALARS)
+        if dt in EXOTIC_SCALARS:
+            return dict(t='np', dt=dt, v=rng.pick([0, 3, -2, 100]), third=rng.random() < .5)
         return dict(t='np', dt=dt, v=rng.pick([0, 3, -2, 100]) if not dt.startswith('u') else rng.pick([0, 3, 200]))
     if t == 'arr':
         rank = rng.pick([0, 1, 1, 1, 2, 3])
@@ -862,6 +882,10 @@ def gen(tier, rng):
                                                    [{'str': 'k'}, dict(t='int', v=1)]])
     for key in ({'int': 0}, {'int': -1}, {'int': -12}, {'int': 10 ** 9}, {'str': 'abc'}, {'str': '-x'}, {'str': '1.5'}, {'str': ''}, {'str': '-'}):
         yield dict(p=PID, op='json', dict=[[key, dict(t='str', v='x')]])
+    for dt in EXOTIC_SCALARS + ['float16', 'uint64', 'float32']:
+        for third in (False, True):
+            sc = dict(t='np', dt=dt, v=3 if dt == 'uint64' else -2, third=third)
+            yield dict(p=PID, op='json', dict=[[{'str': 's'}, sc], [{'int': 2}, dict(t='list', v=[sc, dict(t='dict', v=[['x', sc]])])]])
     # every code point of every class (and the composed words) alone, at every place where a str can stand
     probes = [c for k in sorted(CP) for c in CP[k]] + [w for w in WORDS if not joins(w)]
     for s in probes:
